@@ -114,6 +114,7 @@ pub struct ShadowStats {
     pub atomic_commits_checked: u64,
     pub neglook_unwinds_checked: u64,
     pub neglook_group_checks: u64,
+    pub capture_reads_checked: u64,
     pub epsilon_guard_fired: u64,
     pub max_depth: usize,
     pub max_aux: usize,
@@ -169,6 +170,11 @@ pub struct Shadow {
     expect_push: Option<(usize, usize, usize)>,
     expected_cut: Option<usize>,
     failneg_target: Option<usize>,
+    /// what the instruction that reads a capture position (Backref, BackrefExistsCondition) has to
+    /// do given the state's values of this moment: Some((pc, ix)) it goes on there, None it fails
+    expect_read: Option<(usize, Option<(usize, usize)>)>,
+    /// the text of the run (reads of capture positions are judged against it)
+    text: String,
     cut_seen: bool,
     /// progress monitor: (pc, ix, slots) -> (logical time, branch depth, aux height) of the
     /// latest visit of a loop-head instruction in this run
@@ -212,6 +218,8 @@ impl Shadow {
                 expect_push: None,
                 expected_cut: None,
                 failneg_target: None,
+                expect_read: None,
+                text: String::new(),
                 cut_seen: false,
                 visited: HashMap::new(),
                 low_d: Vec::new(),
@@ -351,6 +359,9 @@ impl Observer for Shadow {
         self.expect_push = None;
         self.expected_cut = None;
         self.failneg_target = None;
+        self.expect_read = None;
+        self.text.clear();
+        self.text.push_str(info.text);
         self.cut_seen = false;
         self.reset_progress(info.prog);
         self.text_len = info.text.len();
@@ -375,6 +386,49 @@ impl Observer for Shadow {
             }
         }
         if self.check_model {
+            if let Some((at, want)) = self.expect_read.take() {
+                // the previous instruction read a capture position and went on
+                if want != Some((pc, ix)) {
+                    self.fail(
+                        "capture-read-not-reverted",
+                        format!(
+                            "the instruction at pc {} reads a capture position; by the state's values of that moment (slots {:?}) it {}, but the VM went on at pc {} position {}: it used a value other than the one the state holds",
+                            at,
+                            self.model.slots,
+                            match want {
+                                Some((p, i)) => format!("continues at pc {} position {}", p, i),
+                                None => "fails".to_string(),
+                            },
+                            pc,
+                            ix
+                        ),
+                    );
+                }
+            }
+            self.expect_read = match insn {
+                Insn::Backref(slot) => {
+                    let lo = self.model.slots.get(*slot).copied().unwrap_or(usize::MAX);
+                    let hi = self.model.slots.get(*slot + 1).copied().unwrap_or(usize::MAX);
+                    if lo == usize::MAX || hi == usize::MAX {
+                        Some((pc, None))
+                    } else if lo <= hi && self.text.is_char_boundary(lo) && self.text.is_char_boundary(hi) && hi <= self.text.len() {
+                        let r = &self.text[lo..hi];
+                        let end = ix + r.len();
+                        let ok = end <= self.text.len() && self.text.as_bytes()[ix..end] == *r.as_bytes();
+                        Some((pc, if ok { Some((pc + 1, end)) } else { None }))
+                    } else {
+                        None // a span the VM itself cannot slice: not judged here
+                    }
+                }
+                Insn::BackrefExistsCondition(group) => {
+                    let lo = self.model.slots.get(*group * 2).copied().unwrap_or(usize::MAX);
+                    Some((pc, if lo == usize::MAX { None } else { Some((pc + 1, ix)) }))
+                }
+                _ => None,
+            };
+            if self.expect_read.is_some() {
+                self.res.borrow_mut().stats.capture_reads_checked += 1;
+            }
             if let Some((at, tpc, tix)) = self.expect_push.take() {
                 self.fail(
                     "alternative-not-created",
@@ -561,6 +615,15 @@ impl Observer for Shadow {
             return;
         }
         if self.check_model {
+            if let Some((at, Some((p, i)))) = self.expect_read.take() {
+                self.fail(
+                    "capture-read-not-reverted",
+                    format!(
+                        "the instruction at pc {} reads a capture position; by the state's values of that moment (slots {:?}) it continues at pc {} position {}, but the VM failed: it used a value other than the one the state holds",
+                        at, self.model.slots, p, i
+                    ),
+                );
+            }
             if let Some((at, tpc, tix)) = self.expect_push.take() {
                 self.fail(
                     "alternative-not-created",
@@ -778,6 +841,15 @@ impl Observer for Shadow {
             return;
         }
         if self.check_model {
+            if let (Some((at, Some((p, i)))), EndReason::NoMatch) = (self.expect_read.take(), end) {
+                self.fail(
+                    "capture-read-not-reverted",
+                    format!(
+                        "the instruction at pc {} reads a capture position; by the state's values of that moment (slots {:?}) it continues at pc {} position {}, but the search ended without a match there",
+                        at, self.model.slots, p, i
+                    ),
+                );
+            }
             if let Some(t) = self.failneg_target.take() {
                 // the run ended right after a negative look-around failed
                 let depth = self.model.depth();
